@@ -169,7 +169,9 @@ def do_call(st_, name, kw, out, sig):
     ref = reference(st_, name, kw)
     spaces = tuple(str(getattr(st_.pr, w).space).split('.')[-1] for w in ARRAYS)
     try:
-        raw = S.quiet(getattr(P.calculate, name), st_.pr, **kw)
+        # arguments with their documented default value are left out on every second call (both spellings must behave alike)
+        kw_call = kw if len(st_.called) % 2 else {k_: v for k_, v in kw.items() if (k_, v) not in (('normalize', True), ('extrapolate', True), ('closure', 'HNC'))}
+        raw = S.quiet(getattr(P.calculate, name), st_.pr, **kw_call)
         got = as_arrays(raw, st_.types)
         # keep the returned object: a value handed to the user must not change when other functions are called later
         kept = getattr(st_, 'kept', None)
